@@ -130,6 +130,10 @@ type pbChan struct {
 	// ambiguous != "": the order of two events of this channel could not be observed; the case is
 	// judged by the oracles only (no model correspondence)
 	ambiguous string
+	// strengthening U16 (engine_peerbook_dial.go)
+	hang    map[string]*pbDial        // host:port -> connection attempt that will hang in the dialer
+	hasDial bool                      // the script contains dial ops (12-14): replayed by run_peerdial (sub peerdial)
+	gcDue   map[*tchannel.Peer]string // root Peer objects seen losing their last connection while unreferenced, still rooted then
 }
 
 type pbScenario struct {
@@ -153,6 +157,10 @@ type pbScenario struct {
 	parkAdd    bool
 	addArrived chan struct{}
 	addRelease chan struct{}
+	// strengthening U16 (engine_peerbook_dial.go)
+	dials    []*pbDial
+	dialSock map[string]*pbDial // local socket address of a connection dialled by a hanging attempt
+	raws     []*pbRaw
 }
 
 var pbFailures int
@@ -197,9 +205,14 @@ func enginePeerbook(rng *rand.Rand, n int, tier string, o *Out) {
 		if tier != "quick" {
 			nops = 5 + rng.Intn(14)
 		}
-		if k%12 == 7 {
+		switch {
+		case k%12 == 7:
 			sc.runParkedAdd()
-		} else {
+		case k%6 == 2:
+			sc.runDial(k/6, nops) // connection attempts that hang, overlap other operations, then fail or complete
+		case k%6 == 5:
+			sc.runRawHP(k/6, nops) // raw peers announcing unusual host:ports
+		default:
 			sc.run(nops)
 		}
 		sc.finish(fmt.Sprintf("s%d", k))
@@ -210,7 +223,7 @@ func enginePeerbook(rng *rand.Rand, n int, tier string, o *Out) {
 func newPbScenario(rng *rand.Rand, o *Out) *pbScenario {
 	sc := &pbScenario{rng: rng, o: o, clock: &pbClock{now: time.Unix(1700000000, 0)}, names: map[string]int64{},
 		nextEph: 100, sides: map[uint32]*pbSide{}, byAddr: map[string]*pbSide{}, socks: map[string]net.Conn{},
-		timeout: 3 * time.Second}
+		timeout: 3 * time.Second, dialSock: map[string]*pbDial{}}
 	if pbFailures >= 3 {
 		sc.timeout = 150 * time.Millisecond // many failing scenarios (a broken tree): do not wait 3 s for each
 	}
@@ -221,7 +234,8 @@ func newPbScenario(rng *rand.Rand, o *Out) *pbScenario {
 		ncli = 1
 	}
 	for i := 0; i < nsrv+ncli; i++ {
-		pc := &pbChan{idx: i, ticker: make(chan time.Time), tainted: map[string]bool{}, seen: map[string]map[uint32]bool{}, cbObjs: map[*tchannel.Peer]bool{}}
+		pc := &pbChan{idx: i, ticker: make(chan time.Time), tainted: map[string]bool{}, seen: map[string]map[uint32]bool{}, cbObjs: map[*tchannel.Peer]bool{},
+			hang: map[string]*pbDial{}, gcDue: map[*tchannel.Peer]string{}}
 		opts := &tchannel.ChannelOptions{
 			OnPeerStatusChanged: func(p *tchannel.Peer) {
 				isRoot := false
@@ -242,7 +256,9 @@ func newPbScenario(rng *rand.Rand, o *Out) *pbScenario {
 			},
 			IdleCheckInterval: time.Hour,
 			MaxIdleTime:       time.Minute,
-			Dialer:            sc.dialer,
+			Dialer: func(ctx context.Context, network, hostPort string) (net.Conn, error) {
+				return sc.dialer(pc, ctx, network, hostPort)
+			},
 		}
 		ch, err := tchannel.NewChannel(fmt.Sprintf("svc%d", i), opts)
 		if err != nil {
@@ -276,14 +292,22 @@ func (sc *pbScenario) name(hp string) int64 {
 	return sc.nextEph
 }
 
-func (sc *pbScenario) dialer(ctx context.Context, network, hostPort string) (net.Conn, error) {
+func (sc *pbScenario) dialer(pc *pbChan, ctx context.Context, network, hostPort string) (net.Conn, error) {
 	sc.mu.Lock()
 	gate, gateIn := sc.gate, sc.gateIn
 	sc.gate, sc.gateIn = nil, nil
+	hang := pc.hang[hostPort]
+	delete(pc.hang, hostPort)
 	sc.mu.Unlock()
 	if gate != nil {
 		close(gateIn)
 		<-gate
+	}
+	if hang != nil {
+		// a connection attempt that hangs (a remote that is restarting), then fails or goes on
+		if err := hang.park(ctx); err != nil {
+			return nil, err
+		}
 	}
 	real := strings.Replace(hostPort, "localhost:", "127.0.0.1:", 1)
 	var d net.Dialer
@@ -291,6 +315,9 @@ func (sc *pbScenario) dialer(ctx context.Context, network, hostPort string) (net
 	if err == nil {
 		sc.mu.Lock()
 		sc.socks[c.LocalAddr().String()] = c
+		if hang != nil {
+			sc.dialSock[c.LocalAddr().String()] = hang
+		}
 		sc.mu.Unlock()
 	}
 	return c, err
@@ -317,7 +344,14 @@ func (sc *pbScenario) register(pc *pbChan, c *tchannel.Connection, accepted bool
 	pc.sides = append(pc.sides, s)
 	pc.nconn++
 	sc.sides[info.ID] = s
-	pc.script = append(pc.script, 0, int64(info.Dir), sc.name(info.RemoteHP), ohp)
+	if d := sc.dialSock[info.LocalAddr]; d != nil && info.Dir == 2 && d.pc == pc && !d.scripted {
+		// the handshake of a hanging attempt completed: DOk of Model/PeerDial.v (the dialled host:port
+		// is the peer's, the connection gets the next ordinal as for op 0)
+		d.scripted = true
+		pc.script = append(pc.script, 14, int64(d.k), sc.name(info.RemoteHP))
+	} else {
+		pc.script = append(pc.script, 0, int64(info.Dir), sc.name(info.RemoteHP), ohp)
+	}
 	// pair the two sides of a link by their socket addresses
 	sc.byAddr[info.LocalAddr+"|"+info.RemoteAddr] = s
 	if other, ok := sc.byAddr[info.RemoteAddr+"|"+info.LocalAddr]; ok && other.link == nil && s.link == nil {
@@ -682,9 +716,20 @@ func (sc *pbScenario) judge(pc *pbChan, v *pbView) (string, bool) {
 		if refs != pv.sc {
 			return fmt.Sprintf("peer %s: scCount %d but %d peer lists reference it", hp, pv.sc, refs), false
 		}
-		if len(pv.in)+len(pv.out) == 0 && pv.sc == 0 && pc.prev != nil {
-			if old, ok := pc.prev.peers[hp]; ok && len(old.in)+len(old.out) > 0 && old.sc == 0 && pc.prev.objs[hp] == v.objs[hp] {
-				msg := fmt.Sprintf("peer %s lost its last connection while no peer list referenced it but is still in the root list", hp)
+		// "at a quiescent moment": while a connection attempt to hp is in flight on this channel the
+		// clause is not judged (the loss is remembered in gcDue); once the attempt is over -- failed or
+		// not -- a Peer object that lost its last connection while unreferenced must be gone
+		if len(pv.in)+len(pv.out) == 0 && pv.sc == 0 && !sc.dialPending(pc, hp) {
+			msg := ""
+			if pc.prev != nil {
+				if old, ok := pc.prev.peers[hp]; ok && len(old.in)+len(old.out) > 0 && old.sc == 0 && pc.prev.objs[hp] == v.objs[hp] {
+					msg = fmt.Sprintf("peer %s lost its last connection while no peer list referenced it but is still in the root list", hp)
+				}
+			}
+			if when, due := pc.gcDue[v.objs[hp]]; due && msg == "" {
+				msg = fmt.Sprintf("peer %s lost its last connection while no peer list referenced it (%s) and is still in the root list now that nothing is in flight: 0 connections, 0 peer-list references", hp, when)
+			}
+			if msg != "" {
 				if pc.tainted[hp] {
 					return known(hp, msg), true
 				}
@@ -833,6 +878,7 @@ func (sc *pbScenario) settle() {
 				pc.seen[hp][id] = true
 			}
 		}
+		sc.noteLosses(pc, v)
 		pc.prev = v
 	}
 }
@@ -1338,16 +1384,21 @@ func (sc *pbScenario) runParkedAdd() {
 
 func (sc *pbScenario) finish(id string) {
 	sc.releaseAll()
+	sc.endAllDials()
 	for i, pc := range sc.chans {
+		sub := "peerbook"
+		if pc.hasDial {
+			sub = "peerdial"
+		}
 		nontrivial := pc.nconn > 0
 		sc.o.Hist(fmt.Sprintf("conns-per-channel=%d", pbMinInt(pc.nconn, 6)))
 		if pc.ambiguous != "" {
 			// oracle-only: the statement-level verdict stands, the model is not consulted
 			sc.o.Hist("oracle-only: " + pc.ambiguous)
-			sc.o.Oracle("peerbook", fmt.Sprintf("%sc%d", id, i), nontrivial, fmt.Sprint(pc.script), pc.verdict)
+			sc.o.Oracle(sub, fmt.Sprintf("%sc%d", id, i), nontrivial, fmt.Sprint(pc.script), pc.verdict)
 			continue
 		}
-		sc.o.Case("peerbook", fmt.Sprintf("%sc%d", id, i), pc.script, pc.obs, nontrivial, pc.verdict)
+		sc.o.Case(sub, fmt.Sprintf("%sc%d", id, i), pc.script, pc.obs, nontrivial, pc.verdict)
 	}
 	sc.o.Sample(map[string]interface{}{"sub": "peerbook", "scenario": id, "operations": sc.desc, "channel0_script": sc.chans[0].script})
 	for _, pc := range sc.chans {
@@ -1357,7 +1408,11 @@ func (sc *pbScenario) finish(id string) {
 	for _, c := range sc.socks {
 		c.Close()
 	}
+	raws := sc.raws
 	sc.mu.Unlock()
+	for _, r := range raws {
+		r.close()
+	}
 }
 
 func pbMinInt(a, b int) int {
